@@ -1,1 +1,1112 @@
-fn main() { eprintln!("C16 not built yet"); std::process::exit(2); }
+//! C16 - conversions to other styling crates preserve colours and effects.
+//!
+//! Per adapter (ansi_term, crossterm, owo-colors, termcolor, yansi) every style
+//! of the enumerated domain is converted by the adapter from /repo, the
+//! converted value is rendered BY THE THIRD-PARTY CRATE ITSELF, the bytes are
+//! parsed by M-VT, the `CSI ... m` parameters drive M-SGR, and the terminal
+//! state at the moment the content character is printed is compared with the
+//! anstyle style - for every attribute the target library can express (the
+//! expressibility table `TARGETS` below).  Public fields / getters of the
+//! converted value and the adapters' public colour functions are read with
+//! harness-side tables (written from the third-party crates' documentation) and
+//! compared under the same rules.  syntect -> anstyle is compared field by
+//! field.
+//!
+//! Domain: colours = None + 16 + 256 + RGB lattice {0,51,..,255}^3 (489 per
+//! slot), effects = all 4096 sets.
+//!   quick:    every colour per slot x 16 representative effect sets,
+//!             all 4096 effect sets x 12 representative colours per slot,
+//!             12^3 colour triples x 16 effect sets;
+//!   thorough: every colour per slot x all 4096 effect sets, every fg x bg pair
+//!             x 16 effect sets, 12^3 colour triples x all 4096 effect sets.
+
+use rayon::prelude::*;
+use serde_json::{json, Value};
+use std::cell::RefCell;
+use std::collections::{BTreeMap, HashMap};
+use std::io::Write as _;
+use vchecks::common::{color_from_col, effects_from_bits, style_tuple};
+use vexplore::evidence::*;
+use vexplore::util::*;
+use vmodel::sgr::{fx, Col, Sgr};
+use vmodel::vt::{Ev, St, Vt};
+
+// ---------------------------------------------------------------------------
+// style descriptions (model side)
+
+#[derive(Clone, Copy, Debug, PartialEq, Eq, Hash, PartialOrd, Ord)]
+struct Sty {
+    fg: Col,
+    bg: Col,
+    ul: Col,
+    fx: u16,
+}
+
+const NAMES16: [&str; 16] = [
+    "Black", "Red", "Green", "Yellow", "Blue", "Magenta", "Cyan", "White", "BrightBlack", "BrightRed", "BrightGreen",
+    "BrightYellow", "BrightBlue", "BrightMagenta", "BrightCyan", "BrightWhite",
+];
+
+fn col_str(c: Col) -> String {
+    match c {
+        Col::Default => "none".into(),
+        Col::Ansi(i) => format!("ansi:{}/{}", i, NAMES16[i as usize & 15]),
+        Col::Idx(n) => format!("idx:{n}"),
+        Col::Rgb(r, g, b) => format!("rgb:{r},{g},{b}"),
+    }
+}
+
+fn col_parse(s: &str) -> Result<Col, String> {
+    let bad = || format!("bad colour {s:?}");
+    if s == "none" {
+        return Ok(Col::Default);
+    }
+    let (k, v) = s.split_once(':').ok_or_else(bad)?;
+    let v = v.split('/').next().unwrap_or("");
+    match k {
+        "ansi" => v.parse::<u8>().ok().filter(|i| *i < 16).map(Col::Ansi).ok_or_else(bad),
+        "idx" => v.parse::<u8>().ok().map(Col::Idx).ok_or_else(bad),
+        "rgb" => {
+            let p: Vec<u8> = v.split(',').filter_map(|x| x.parse().ok()).collect();
+            if p.len() == 3 {
+                Ok(Col::Rgb(p[0], p[1], p[2]))
+            } else {
+                Err(bad())
+            }
+        }
+        _ => Err(bad()),
+    }
+}
+
+fn fx_str(bits: u16) -> String {
+    if bits == 0 {
+        return "-".into();
+    }
+    let mut v = vec![];
+    for (i, n) in fx::NAMES.iter().enumerate() {
+        if bits & (1 << i) != 0 {
+            v.push(*n);
+        }
+    }
+    v.join("+")
+}
+
+impl Sty {
+    const PLAIN: Sty = Sty { fg: Col::Default, bg: Col::Default, ul: Col::Default, fx: 0 };
+
+    fn real(&self) -> anstyle::Style {
+        anstyle::Style::new()
+            .fg_color(color_from_col(self.fg))
+            .bg_color(color_from_col(self.bg))
+            .underline_color(color_from_col(self.ul))
+            .effects(effects_from_bits(self.fx))
+    }
+    fn tokens(&self) -> Vec<String> {
+        let mut v = vec![];
+        if self.fg != Col::Default {
+            v.push(format!("fg={}", col_str(self.fg)));
+        }
+        if self.bg != Col::Default {
+            v.push(format!("bg={}", col_str(self.bg)));
+        }
+        if self.ul != Col::Default {
+            v.push(format!("ul={}", col_str(self.ul)));
+        }
+        if self.fx != 0 {
+            v.push(format!("fx={}", fx_str(self.fx)));
+        }
+        if v.is_empty() {
+            v.push("plain".into());
+        }
+        v
+    }
+    fn to_json(&self) -> Value {
+        json!({"fg": col_str(self.fg), "bg": col_str(self.bg), "ul": col_str(self.ul), "fx": self.fx})
+    }
+    fn from_json(v: &Value) -> Result<Sty, String> {
+        Ok(Sty {
+            fg: col_parse(v["fg"].as_str().unwrap_or(""))?,
+            bg: col_parse(v["bg"].as_str().unwrap_or(""))?,
+            ul: col_parse(v["ul"].as_str().unwrap_or(""))?,
+            fx: v["fx"].as_u64().ok_or("bad fx")? as u16,
+        })
+    }
+    /// number of non-default components (for "simplest first" ordering)
+    fn weight(&self) -> u32 {
+        (self.fg != Col::Default) as u32
+            + (self.bg != Col::Default) as u32
+            + (self.ul != Col::Default) as u32
+            + self.fx.count_ones()
+    }
+    /// the single-component sub-styles of this style, in a fixed order
+    fn singles(&self) -> Vec<Sty> {
+        let mut v = vec![];
+        if self.fg != Col::Default {
+            v.push(Sty { fg: self.fg, ..Sty::PLAIN });
+        }
+        if self.bg != Col::Default {
+            v.push(Sty { bg: self.bg, ..Sty::PLAIN });
+        }
+        if self.ul != Col::Default {
+            v.push(Sty { ul: self.ul, ..Sty::PLAIN });
+        }
+        for i in 0..12 {
+            if self.fx & (1 << i) != 0 {
+                v.push(Sty { fx: 1 << i, ..Sty::PLAIN });
+            }
+        }
+        v
+    }
+}
+
+// ---------------------------------------------------------------------------
+// expressibility table: what each target library can express
+
+#[derive(Clone, Copy, Debug, PartialEq, Eq)]
+enum Bright {
+    /// the target colour type has dedicated bright variants: brightness must be kept
+    Exact,
+    /// the adapter's own convention (ansi_term foreground): base hue + bold; the exact bright colour is accepted too
+    BoldConvention,
+    /// the target's named colours have no per-slot bright variants: only the hue is required
+    HueOnly,
+}
+
+struct Target {
+    name: &'static str,
+    /// effects the target library can express: must be preserved
+    required: u16,
+    /// effects only newer versions than the adapter's declared minimum can express: may be kept or dropped
+    optional: u16,
+    underline_colour: bool,
+    bright_fg: Bright,
+    bright_bg: Bright,
+    brightness_note: &'static str,
+}
+
+const BASIC8: u16 =
+    fx::BOLD | fx::DIMMED | fx::ITALIC | fx::UNDERLINE | fx::BLINK | fx::INVERT | fx::HIDDEN | fx::STRIKETHROUGH;
+
+const TARGETS: [Target; 5] = [
+    Target {
+        name: "anstyle-ansi-term",
+        required: BASIC8,
+        optional: 0,
+        underline_colour: false,
+        bright_fg: Bright::BoldConvention,
+        bright_bg: Bright::HueOnly,
+        brightness_note: "ansi_term::Colour has 8 named hues, Fixed(n), RGB; bright foreground = hue + bold (adapter convention) or the exact bright colour; bright background: hue only",
+    },
+    Target {
+        name: "anstyle-crossterm",
+        required: 0x0fff,
+        optional: 0,
+        underline_colour: true,
+        bright_fg: Bright::Exact,
+        bright_bg: Bright::Exact,
+        brightness_note: "crossterm::style::Color has Dark*/bright variants for all 16 colours; Attribute has Bold, Dim, Italic, Underlined, DoubleUnderlined, Undercurled, Underdotted, Underdashed, SlowBlink, Reverse, Hidden, CrossedOut; ContentStyle has underline_color",
+    },
+    Target {
+        name: "anstyle-owo-colors",
+        required: BASIC8,
+        optional: 0,
+        underline_colour: false,
+        bright_fg: Bright::Exact,
+        bright_bg: Bright::Exact,
+        brightness_note: "owo_colors::AnsiColors has Bright* variants",
+    },
+    Target {
+        name: "anstyle-termcolor",
+        required: fx::BOLD | fx::DIMMED | fx::ITALIC | fx::UNDERLINE,
+        optional: fx::STRIKETHROUGH,
+        underline_colour: false,
+        bright_fg: Bright::HueOnly,
+        bright_bg: Bright::HueOnly,
+        brightness_note: "termcolor::Color has 8 named hues, Ansi256, Rgb; ColorSpec::intense is one flag for both slots, so per-slot brightness is not expressible with named colours: hue only (the exact bright colour is accepted too)",
+    },
+    Target {
+        name: "anstyle-yansi",
+        required: BASIC8,
+        optional: 0,
+        underline_colour: false,
+        bright_fg: Bright::Exact,
+        bright_bg: Bright::Exact,
+        brightness_note: "yansi::Color has Bright* variants",
+    },
+];
+
+// ---------------------------------------------------------------------------
+// read-outs of a converted value
+
+#[derive(Clone, Debug, Default)]
+struct Read {
+    name: &'static str,
+    fg: Option<Col>,
+    bg: Option<Col>,
+    ul: Option<Col>,
+    fx: Option<u16>,
+    /// attributes set on the converted value that are no anstyle effect at all
+    foreign: Vec<String>,
+    error: Option<String>,
+    raw: String,
+}
+
+/// Parse bytes produced by a third-party renderer around the content "x":
+/// only `CSI ... m` sequences and the single content character are allowed.
+/// Returns the SGR state in force when "x" is printed.
+fn interpret(name: &'static str, bytes: &[u8]) -> Read {
+    let mut r = Read { name, raw: show(bytes), ..Default::default() };
+    let mut vt = Vt::default();
+    let mut sgr = Sgr::default();
+    let mut at: Option<Sgr> = None;
+    for ev in vt.feed(bytes) {
+        match ev {
+            Ev::Csi { params, inter, ignore: false, byte: b'm' } if inter.is_empty() => sgr.apply(&params),
+            Ev::Print('x') if at.is_none() => at = Some(sgr),
+            other => {
+                r.error = Some(format!("rendered output contains something other than SGR sequences and the content: {other:?}"));
+                return r;
+            }
+        }
+    }
+    if vt.st != St::Ground {
+        r.error = Some("rendered output ends inside an escape sequence".into());
+        return r;
+    }
+    match at {
+        None => r.error = Some("content character was not printed".into()),
+        Some(s) => {
+            r.fg = Some(s.fg);
+            r.bg = Some(s.bg);
+            r.ul = Some(s.ul_color);
+            r.fx = Some(s.seen);
+        }
+    }
+    r
+}
+
+fn opt(c: Option<Col>) -> Col {
+    c.unwrap_or(Col::Default)
+}
+
+// ---- ansi_term -------------------------------------------------------------
+
+fn at_col(c: ansi_term::Colour) -> Col {
+    use ansi_term::Colour as C;
+    match c {
+        C::Black => Col::Ansi(0),
+        C::Red => Col::Ansi(1),
+        C::Green => Col::Ansi(2),
+        C::Yellow => Col::Ansi(3),
+        C::Blue => Col::Ansi(4),
+        C::Purple => Col::Ansi(5),
+        C::Cyan => Col::Ansi(6),
+        C::White => Col::Ansi(7),
+        C::Fixed(n) => Col::Idx(n),
+        C::RGB(r, g, b) => Col::Rgb(r, g, b),
+    }
+}
+
+fn eval_ansi_term(sty: &Sty) -> Vec<Read> {
+    let s = anstyle_ansi_term::to_ansi_term(sty.real());
+    let painted = format!("{}", s.paint("x"));
+    let affix = format!("{}x{}", s.prefix(), s.suffix());
+    let mut bits = 0;
+    for (on, b) in [
+        (s.is_bold, fx::BOLD),
+        (s.is_dimmed, fx::DIMMED),
+        (s.is_italic, fx::ITALIC),
+        (s.is_underline, fx::UNDERLINE),
+        (s.is_blink, fx::BLINK),
+        (s.is_reverse, fx::INVERT),
+        (s.is_hidden, fx::HIDDEN),
+        (s.is_strikethrough, fx::STRIKETHROUGH),
+    ] {
+        if on {
+            bits |= b;
+        }
+    }
+    let fields = Read {
+        name: "ansi_term::Style fields",
+        fg: Some(opt(s.foreground.map(at_col))),
+        bg: Some(opt(s.background.map(at_col))),
+        ul: None,
+        fx: Some(bits),
+        raw: format!("{s:?}"),
+        ..Default::default()
+    };
+    vec![interpret("ansi_term Style::paint Display", painted.as_bytes()), interpret("ansi_term Style::prefix/suffix", affix.as_bytes()), fields]
+}
+
+// ---- crossterm -------------------------------------------------------------
+
+fn ct_col(c: crossterm::style::Color) -> Result<Col, String> {
+    use crossterm::style::Color as C;
+    Ok(match c {
+        C::Reset => Col::Default,
+        C::Black => Col::Ansi(0),
+        C::DarkRed => Col::Ansi(1),
+        C::DarkGreen => Col::Ansi(2),
+        C::DarkYellow => Col::Ansi(3),
+        C::DarkBlue => Col::Ansi(4),
+        C::DarkMagenta => Col::Ansi(5),
+        C::DarkCyan => Col::Ansi(6),
+        C::Grey => Col::Ansi(7),
+        C::DarkGrey => Col::Ansi(8),
+        C::Red => Col::Ansi(9),
+        C::Green => Col::Ansi(10),
+        C::Yellow => Col::Ansi(11),
+        C::Blue => Col::Ansi(12),
+        C::Magenta => Col::Ansi(13),
+        C::Cyan => Col::Ansi(14),
+        C::White => Col::Ansi(15),
+        C::AnsiValue(n) => Col::Idx(n),
+        C::Rgb { r, g, b } => Col::Rgb(r, g, b),
+    })
+}
+
+fn eval_crossterm(sty: &Sty) -> Vec<Read> {
+    use crossterm::style::Attribute as A;
+    let cs = anstyle_crossterm::to_crossterm(sty.real());
+    let rendered = format!("{}", crossterm::style::StyledContent::new(cs, "x"));
+    let mut fields = Read { name: "crossterm ContentStyle fields", raw: format!("{cs:?}"), ..Default::default() };
+    let mut bits = 0;
+    for a in A::iterator() {
+        if !cs.attributes.has(a) {
+            continue;
+        }
+        match a {
+            A::Bold => bits |= fx::BOLD,
+            A::Dim => bits |= fx::DIMMED,
+            A::Italic => bits |= fx::ITALIC,
+            A::Underlined => bits |= fx::UNDERLINE,
+            A::DoubleUnderlined => bits |= fx::DOUBLE_UNDERLINE,
+            A::Undercurled => bits |= fx::CURLY_UNDERLINE,
+            A::Underdotted => bits |= fx::DOTTED_UNDERLINE,
+            A::Underdashed => bits |= fx::DASHED_UNDERLINE,
+            A::SlowBlink | A::RapidBlink => bits |= fx::BLINK,
+            A::Reverse => bits |= fx::INVERT,
+            A::Hidden => bits |= fx::HIDDEN,
+            A::CrossedOut => bits |= fx::STRIKETHROUGH,
+            other => fields.foreign.push(format!("{other:?}")),
+        }
+    }
+    fields.fx = Some(bits);
+    let mut conv = |c: Option<crossterm::style::Color>| match c.map(ct_col) {
+        None => Some(Col::Default),
+        Some(Ok(c)) => Some(c),
+        Some(Err(e)) => {
+            fields.error = Some(e);
+            None
+        }
+    };
+    fields.fg = conv(cs.foreground_color);
+    fields.bg = conv(cs.background_color);
+    fields.ul = conv(cs.underline_color);
+    vec![interpret("crossterm StyledContent Display", rendered.as_bytes()), fields]
+}
+
+// ---- owo-colors ------------------------------------------------------------
+
+fn owo_col(c: owo_colors::DynColors) -> Result<Col, String> {
+    use owo_colors::AnsiColors as A;
+    use owo_colors::DynColors as D;
+    Ok(match c {
+        D::Ansi(a) => match a {
+            A::Black => Col::Ansi(0),
+            A::Red => Col::Ansi(1),
+            A::Green => Col::Ansi(2),
+            A::Yellow => Col::Ansi(3),
+            A::Blue => Col::Ansi(4),
+            A::Magenta => Col::Ansi(5),
+            A::Cyan => Col::Ansi(6),
+            A::White => Col::Ansi(7),
+            A::Default => Col::Default,
+            A::BrightBlack => Col::Ansi(8),
+            A::BrightRed => Col::Ansi(9),
+            A::BrightGreen => Col::Ansi(10),
+            A::BrightYellow => Col::Ansi(11),
+            A::BrightBlue => Col::Ansi(12),
+            A::BrightMagenta => Col::Ansi(13),
+            A::BrightCyan => Col::Ansi(14),
+            A::BrightWhite => Col::Ansi(15),
+        },
+        D::Xterm(x) => Col::Idx(u8::from(x)),
+        D::Rgb(r, g, b) => Col::Rgb(r, g, b),
+        D::Css(c) => return Err(format!("unexpected CSS colour {c:?}")),
+    })
+}
+
+fn eval_owo(sty: &Sty) -> Vec<Read> {
+    let real = sty.real();
+    let s = anstyle_owo_colors::to_owo_style(real);
+    let rendered = format!("{}", s.style("x"));
+    let mut f = Read { name: "anstyle_owo_colors::to_owo_colors value", ..Default::default() };
+    let mut conv = |c: Option<anstyle::Color>| match c.map(|c| owo_col(anstyle_owo_colors::to_owo_colors(c))) {
+        None => Some(Col::Default),
+        Some(Ok(c)) => Some(c),
+        Some(Err(e)) => {
+            f.error = Some(e);
+            None
+        }
+    };
+    f.fg = conv(real.get_fg_color());
+    f.bg = conv(real.get_bg_color());
+    vec![interpret("owo_colors Style::style Display", rendered.as_bytes()), f]
+}
+
+// ---- termcolor -------------------------------------------------------------
+
+fn tc_col(c: &termcolor::Color, intense: bool) -> Result<Col, String> {
+    use termcolor::Color as C;
+    let hue = |h: u8| Col::Ansi(if intense { h + 8 } else { h });
+    Ok(match c {
+        C::Black => hue(0),
+        C::Red => hue(1),
+        C::Green => hue(2),
+        C::Yellow => hue(3),
+        C::Blue => hue(4),
+        C::Magenta => hue(5),
+        C::Cyan => hue(6),
+        C::White => hue(7),
+        C::Ansi256(n) => Col::Idx(*n),
+        C::Rgb(r, g, b) => Col::Rgb(*r, *g, *b),
+        other => return Err(format!("unexpected termcolor colour {other:?}")),
+    })
+}
+
+fn eval_termcolor(sty: &Sty) -> Vec<Read> {
+    use termcolor::WriteColor as _;
+    let real = sty.real();
+    let spec = anstyle_termcolor::to_termcolor_spec(real);
+    let mut w = termcolor::Ansi::new(Vec::new());
+    let res = w.set_color(&spec).and_then(|_| w.write_all(b"x")).and_then(|_| w.reset());
+    let bytes = w.into_inner();
+    let mut rendered = interpret("termcolor Ansi::set_color", &bytes);
+    if let Err(e) = res {
+        rendered.error = Some(format!("termcolor returned an error: {e}"));
+    }
+    let mut fields = Read { name: "termcolor ColorSpec getters", raw: format!("{spec:?}"), ..Default::default() };
+    let mut bits = 0;
+    for (on, b) in [
+        (spec.bold(), fx::BOLD),
+        (spec.dimmed(), fx::DIMMED),
+        (spec.italic(), fx::ITALIC),
+        (spec.underline(), fx::UNDERLINE),
+        (spec.strikethrough(), fx::STRIKETHROUGH),
+    ] {
+        if on {
+            bits |= b;
+        }
+    }
+    fields.fx = Some(bits);
+    let mut ferr = None;
+    let mut conv = |c: Option<Result<Col, String>>| match c {
+        None => Some(Col::Default),
+        Some(Ok(c)) => Some(c),
+        Some(Err(e)) => {
+            ferr = Some(e);
+            None
+        }
+    };
+    fields.fg = conv(spec.fg().map(|c| tc_col(c, spec.intense())));
+    fields.bg = conv(spec.bg().map(|c| tc_col(c, spec.intense())));
+    let mut f2 = Read { name: "anstyle_termcolor::to_termcolor_color value", ..Default::default() };
+    f2.fg = conv(real.get_fg_color().map(|c| tc_col(&anstyle_termcolor::to_termcolor_color(c), false)));
+    f2.bg = conv(real.get_bg_color().map(|c| tc_col(&anstyle_termcolor::to_termcolor_color(c), false)));
+    fields.error = ferr;
+    vec![rendered, fields, f2]
+}
+
+// ---- yansi -----------------------------------------------------------------
+
+fn ya_col(c: yansi::Color) -> Col {
+    use yansi::Color as C;
+    match c {
+        C::Primary => Col::Default,
+        C::Fixed(n) => Col::Idx(n),
+        C::Rgb(r, g, b) => Col::Rgb(r, g, b),
+        C::Black => Col::Ansi(0),
+        C::Red => Col::Ansi(1),
+        C::Green => Col::Ansi(2),
+        C::Yellow => Col::Ansi(3),
+        C::Blue => Col::Ansi(4),
+        C::Magenta => Col::Ansi(5),
+        C::Cyan => Col::Ansi(6),
+        C::White => Col::Ansi(7),
+        C::BrightBlack => Col::Ansi(8),
+        C::BrightRed => Col::Ansi(9),
+        C::BrightGreen => Col::Ansi(10),
+        C::BrightYellow => Col::Ansi(11),
+        C::BrightBlue => Col::Ansi(12),
+        C::BrightMagenta => Col::Ansi(13),
+        C::BrightCyan => Col::Ansi(14),
+        C::BrightWhite => Col::Ansi(15),
+    }
+}
+
+fn eval_yansi(sty: &Sty) -> Vec<Read> {
+    use yansi::Paint as _;
+    let real = sty.real();
+    let s = anstyle_yansi::to_yansi_style(real);
+    let mut affix = String::new();
+    let _ = s.fmt_prefix(&mut affix);
+    affix.push('x');
+    let _ = s.fmt_suffix(&mut affix);
+    let painted = format!("{}", "x".paint(s));
+    let fields = Read {
+        name: "yansi::Style colour fields",
+        fg: Some(opt(s.foreground.map(ya_col))),
+        bg: Some(opt(s.background.map(ya_col))),
+        raw: format!("{s:?}"),
+        ..Default::default()
+    };
+    let f2 = Read {
+        name: "anstyle_yansi::to_yansi_color value",
+        fg: Some(opt(real.get_fg_color().map(|c| ya_col(anstyle_yansi::to_yansi_color(c))))),
+        bg: Some(opt(real.get_bg_color().map(|c| ya_col(anstyle_yansi::to_yansi_color(c))))),
+        ..Default::default()
+    };
+    vec![interpret("yansi Style::fmt_prefix/fmt_suffix", affix.as_bytes()), interpret("yansi Painted Display", painted.as_bytes()), fields, f2]
+}
+
+fn eval_reads(ai: usize, sty: &Sty) -> Vec<Read> {
+    match ai {
+        0 => eval_ansi_term(sty),
+        1 => eval_crossterm(sty),
+        2 => eval_owo(sty),
+        3 => eval_termcolor(sty),
+        4 => eval_yansi(sty),
+        _ => unreachable!(),
+    }
+}
+
+// ---------------------------------------------------------------------------
+// the oracle
+
+#[derive(Clone, Debug, PartialEq, Eq, Hash, PartialOrd, Ord)]
+struct Mis {
+    /// oracle clause incl. the component it concerns, e.g. "fg-colour", "effect-lost:STRIKETHROUGH"
+    clause: String,
+    detail: String,
+}
+
+/// (acceptable, bold is part of the colour's expression)
+fn colour_ok(exp: Col, act: Col, mode: Bright, act_fx: Option<u16>) -> (bool, bool) {
+    match exp {
+        Col::Ansi(i) if i >= 8 => {
+            if act.same_modulo_16(Col::Ansi(i)) {
+                return (true, false);
+            }
+            let base = act.same_modulo_16(Col::Ansi(i - 8));
+            match mode {
+                Bright::Exact => (false, false),
+                Bright::HueOnly => (base, false),
+                Bright::BoldConvention => {
+                    let bold = act_fx.map(|f| f & fx::BOLD != 0).unwrap_or(true);
+                    (base && bold, base && bold)
+                }
+            }
+        }
+        _ => (exp.same_modulo_16(act), false),
+    }
+}
+
+fn compare(t: &Target, sty: &Sty, reads: &[Read]) -> Vec<Mis> {
+    let mut by_clause: BTreeMap<String, Vec<String>> = BTreeMap::new();
+    let mut add = |clause: String, detail: String| by_clause.entry(clause).or_default().push(detail);
+    for r in reads {
+        if let Some(e) = &r.error {
+            add("render-structure".into(), format!("[{}] {e} (raw {})", r.name, r.raw));
+            continue;
+        }
+        // under the bold convention a bright foreground is allowed to bring BOLD along (even if the hue is
+        // wrong: that is then reported once, as the colour mismatch)
+        let bold_excused = t.bright_fg == Bright::BoldConvention && matches!(sty.fg, Col::Ansi(i) if i >= 8);
+        if let Some(a) = r.fg {
+            let (ok, _) = colour_ok(sty.fg, a, t.bright_fg, r.fx);
+            if !ok {
+                add("fg-colour".into(), format!("[{}] foreground {} came out as {} (raw {})", r.name, col_str(sty.fg), col_str(a), r.raw));
+            }
+        }
+        if let Some(a) = r.bg {
+            // bold never expresses background brightness
+            let mode = if t.bright_bg == Bright::BoldConvention { Bright::HueOnly } else { t.bright_bg };
+            let (ok, _) = colour_ok(sty.bg, a, mode, r.fx);
+            if !ok {
+                add("bg-colour".into(), format!("[{}] background {} came out as {} (raw {})", r.name, col_str(sty.bg), col_str(a), r.raw));
+            }
+        }
+        if let Some(a) = r.ul {
+            if t.underline_colour {
+                let (ok, _) = colour_ok(sty.ul, a, Bright::Exact, r.fx);
+                if !ok {
+                    add("ul-colour".into(), format!("[{}] underline colour {} came out as {} (raw {})", r.name, col_str(sty.ul), col_str(a), r.raw));
+                }
+            }
+        }
+        if let Some(a) = r.fx {
+            for i in 0..12 {
+                let bit = 1u16 << i;
+                let want = sty.fx & bit != 0;
+                let have = a & bit != 0;
+                if want && !have && t.required & bit != 0 {
+                    add(format!("effect-lost:{}", fx::NAMES[i]), format!("[{}] effects {} came out as {} (raw {})", r.name, fx_str(sty.fx), fx_str(a), r.raw));
+                }
+                if have && !want && !(bit == fx::BOLD && bold_excused) {
+                    add(format!("effect-added:{}", fx::NAMES[i]), format!("[{}] effects {} came out as {} (raw {})", r.name, fx_str(sty.fx), fx_str(a), r.raw));
+                }
+            }
+        }
+        for f in &r.foreign {
+            add(format!("effect-added:foreign-{f}"), format!("[{}] attribute {f}, which is no effect of the style, is set (raw {})", r.name, r.raw));
+        }
+    }
+    by_clause.into_iter().map(|(clause, d)| Mis { clause, detail: d.join(" ; ") }).collect()
+}
+
+fn evaluate(ai: usize, sty: &Sty) -> Vec<Mis> {
+    let s = *sty;
+    match std::panic::catch_unwind(move || eval_reads(ai, &s)) {
+        Ok(reads) => compare(&TARGETS[ai], sty, &reads),
+        Err(_) => vec![Mis { clause: "panic".into(), detail: "conversion or third-party rendering panicked".into() }],
+    }
+}
+
+thread_local! {
+    static CACHE: RefCell<HashMap<(usize, Sty), Vec<Mis>>> = RefCell::new(HashMap::new());
+}
+
+fn evaluate_cached(ai: usize, sty: &Sty) -> Vec<Mis> {
+    if let Some(v) = CACHE.with(|c| c.borrow().get(&(ai, *sty)).cloned()) {
+        return v;
+    }
+    let v = evaluate(ai, sty);
+    CACHE.with(|c| {
+        let mut c = c.borrow_mut();
+        if c.len() > 100_000 {
+            c.clear();
+        }
+        c.insert((ai, *sty), v.clone());
+    });
+    v
+}
+
+/// The minimal style that shows the same mismatch clause: a single-component
+/// sub-style if one reproduces it, else the style itself.
+fn attribute(ai: usize, sty: &Sty, m: &Mis) -> (Sty, String) {
+    if sty.weight() > 1 {
+        for s in sty.singles() {
+            if let Some(m2) = evaluate_cached(ai, &s).into_iter().find(|x| x.clause == m.clause) {
+                return (s, m2.detail);
+            }
+        }
+    }
+    (*sty, m.detail.clone())
+}
+
+// ---------------------------------------------------------------------------
+// domain
+
+fn all_colours() -> Vec<Col> {
+    let mut v = vec![Col::Default];
+    for i in 0..16 {
+        v.push(Col::Ansi(i));
+    }
+    for n in 0..=255u8 {
+        v.push(Col::Idx(n));
+    }
+    for r in 0..6u16 {
+        for g in 0..6u16 {
+            for b in 0..6u16 {
+                v.push(Col::Rgb((r * 51) as u8, (g * 51) as u8, (b * 51) as u8));
+            }
+        }
+    }
+    v
+}
+
+fn rep_colours() -> Vec<Col> {
+    vec![
+        Col::Default,
+        Col::Ansi(1),
+        Col::Ansi(4),
+        Col::Ansi(8),
+        Col::Ansi(12),
+        Col::Ansi(15),
+        Col::Idx(4),
+        Col::Idx(12),
+        Col::Idx(196),
+        Col::Rgb(0, 0, 0),
+        Col::Rgb(255, 255, 255),
+        Col::Rgb(1, 2, 3),
+    ]
+}
+
+fn rep_effects() -> Vec<u16> {
+    let mut v = vec![0u16];
+    for i in 0..12 {
+        v.push(1 << i);
+    }
+    v.push(0x0fff);
+    v.push(fx::BOLD | fx::ITALIC | fx::UNDERLINE);
+    v.push(0x0fff & !fx::BOLD);
+    v
+}
+
+struct Part {
+    name: String,
+    len: u64,
+    get: Box<dyn Fn(u64) -> Sty + Sync + Send>,
+}
+
+fn slot_set(slot: usize, c: Col, fxs: u16) -> Sty {
+    let mut s = Sty { fx: fxs, ..Sty::PLAIN };
+    match slot {
+        0 => s.fg = c,
+        1 => s.bg = c,
+        _ => s.ul = c,
+    }
+    s
+}
+
+fn parts(quick: bool) -> Vec<Part> {
+    let all = all_colours();
+    let rep = rep_colours();
+    let repfx = rep_effects();
+    let allfx: Vec<u16> = (0..4096).collect();
+    let slots = ["fg", "bg", "underline-colour"];
+    let mut v = vec![];
+    let slot_part = |slot: usize, cols: &Vec<Col>, fxs: &Vec<u16>, label: &str| {
+        let (cols, fxs) = (cols.clone(), fxs.clone());
+        let (nc, nf) = (cols.len() as u64, fxs.len() as u64);
+        Part {
+            name: format!("{} slot: {label}", slots[slot]),
+            len: nc * nf,
+            get: Box::new(move |i| slot_set(slot, cols[(i / nf) as usize], fxs[(i % nf) as usize])),
+        }
+    };
+    let triple_part = |cols: &Vec<Col>, fxs: &Vec<u16>, label: &str| {
+        let (cols, fxs) = (cols.clone(), fxs.clone());
+        let (nc, nf) = (cols.len() as u64, fxs.len() as u64);
+        Part {
+            name: format!("fg x bg x underline-colour: {label}"),
+            len: nc * nc * nc * nf,
+            get: Box::new(move |i| {
+                let f = i % nf;
+                let c = i / nf;
+                Sty { fg: cols[(c / (nc * nc)) as usize], bg: cols[((c / nc) % nc) as usize], ul: cols[(c % nc) as usize], fx: fxs[f as usize] }
+            }),
+        }
+    };
+    if quick {
+        for slot in 0..3 {
+            v.push(slot_part(slot, &all, &repfx, "all 489 colours x 16 representative effect sets"));
+            v.push(slot_part(slot, &rep, &allfx, "12 representative colours x all 4096 effect sets"));
+        }
+        v.push(triple_part(&rep, &repfx, "12^3 representative colours x 16 representative effect sets"));
+    } else {
+        for slot in 0..3 {
+            v.push(slot_part(slot, &all, &allfx, "all 489 colours x all 4096 effect sets"));
+        }
+        {
+            let (cols, fxs) = (all.clone(), repfx.clone());
+            let (nc, nf) = (cols.len() as u64, fxs.len() as u64);
+            v.push(Part {
+                name: "fg x bg: all 489 x 489 colour pairs x 16 representative effect sets".into(),
+                len: nc * nc * nf,
+                get: Box::new(move |i| {
+                    let c = i / nf;
+                    Sty { fg: cols[(c / nc) as usize], bg: cols[(c % nc) as usize], ul: Col::Default, fx: fxs[(i % nf) as usize] }
+                }),
+            });
+        }
+        v.push(triple_part(&rep, &allfx, "12^3 representative colours x all 4096 effect sets"));
+    }
+    v
+}
+
+// ---------------------------------------------------------------------------
+// syntect -> anstyle
+
+fn syntect_case(fg: (u8, u8, u8), bg: (u8, u8, u8), alpha: u8, font: u8) -> Vec<Mis> {
+    use syntect::highlighting::{Color, FontStyle, Style};
+    let mut fs = FontStyle::empty();
+    let mut want = 0u16;
+    if font & 1 != 0 {
+        fs |= FontStyle::BOLD;
+        want |= fx::BOLD;
+    }
+    if font & 2 != 0 {
+        fs |= FontStyle::ITALIC;
+        want |= fx::ITALIC;
+    }
+    if font & 4 != 0 {
+        fs |= FontStyle::UNDERLINE;
+        want |= fx::UNDERLINE;
+    }
+    let st = Style {
+        foreground: Color { r: fg.0, g: fg.1, b: fg.2, a: alpha },
+        background: Color { r: bg.0, g: bg.1, b: bg.2, a: alpha },
+        font_style: fs,
+    };
+    let got = style_tuple(&anstyle_syntect::to_anstyle(st));
+    let mut v = vec![];
+    let (efg, ebg) = (Col::Rgb(fg.0, fg.1, fg.2), Col::Rgb(bg.0, bg.1, bg.2));
+    if got.0 != efg {
+        v.push(Mis { clause: "fg-colour".into(), detail: format!("to_anstyle: foreground {} came out as {}", col_str(efg), col_str(got.0)) });
+    }
+    if got.1 != ebg {
+        v.push(Mis { clause: "bg-colour".into(), detail: format!("to_anstyle: background {} came out as {}", col_str(ebg), col_str(got.1)) });
+    }
+    if got.2 != Col::Default {
+        v.push(Mis { clause: "ul-colour".into(), detail: format!("to_anstyle: underline colour {} invented", col_str(got.2)) });
+    }
+    if got.3 != want {
+        v.push(Mis { clause: "effects".into(), detail: format!("to_anstyle: font style {} came out as {}", fx_str(want), fx_str(got.3)) });
+    }
+    // the public component functions
+    let c = anstyle_syntect::to_anstyle_color(st.foreground);
+    if vchecks::common::col_of(Some(c)) != efg {
+        v.push(Mis { clause: "fg-colour".into(), detail: format!("to_anstyle_color: {} came out as {c:?}", col_str(efg)) });
+    }
+    let e = vchecks::common::effects_bits(anstyle_syntect::to_anstyle_effects(fs));
+    if e != want {
+        v.push(Mis { clause: "effects".into(), detail: format!("to_anstyle_effects: font style {} came out as {}", fx_str(want), fx_str(e)) });
+    }
+    v
+}
+
+fn lattice() -> Vec<(u8, u8, u8)> {
+    let mut v = vec![];
+    for r in 0..6u16 {
+        for g in 0..6u16 {
+            for b in 0..6u16 {
+                v.push(((r * 51) as u8, (g * 51) as u8, (b * 51) as u8));
+            }
+        }
+    }
+    v
+}
+
+// ---------------------------------------------------------------------------
+
+fn setup_third_party() {
+    // crossterm honours NO_COLOR through a memoised global; yansi has a global switch
+    std::env::remove_var("NO_COLOR");
+    crossterm::style::Colored::set_ansi_color_disabled(false);
+    yansi::enable();
+}
+
+type Key = (usize, String, Sty);
+
+fn main_check(ctx: &Ctx) -> Outcome {
+    let mut out = Outcome::default();
+    let quick = ctx.quick();
+    setup_third_party();
+    let parts = parts(quick);
+
+    // distinct styles of the domain (the same for every adapter)
+    let mut distinct: Vec<Sty> = parts.par_iter().flat_map(|p| (0..p.len).into_par_iter().map(move |i| (p.get)(i))).collect();
+    distinct.par_sort_unstable();
+    distinct.dedup();
+    let distinct_styles = distinct.len() as u64;
+    let distinct_nonplain = distinct.iter().filter(|s| **s != Sty::PLAIN).count() as u64;
+    drop(distinct);
+
+    let mut evaluations = 0u64;
+    let mut failing_styles = 0u64;
+    let mut found: BTreeMap<Key, (String, u64)> = BTreeMap::new();
+    for (ai, t) in TARGETS.iter().enumerate() {
+        let mut adapter_fail = 0u64;
+        for p in &parts {
+            let (fails, map) = (0..p.len)
+                .into_par_iter()
+                .fold(
+                    || (0u64, BTreeMap::<Key, (String, u64)>::new()),
+                    |(mut fails, mut map), i| {
+                        let sty = (p.get)(i);
+                        let mis = evaluate(ai, &sty);
+                        if !mis.is_empty() {
+                            fails += 1;
+                            for m in &mis {
+                                let (case, detail) = attribute(ai, &sty, m);
+                                let e = map.entry((ai, m.clause.clone(), case)).or_insert((detail, 0));
+                                e.1 += 1;
+                            }
+                        }
+                        (fails, map)
+                    },
+                )
+                .reduce(
+                    || (0, BTreeMap::new()),
+                    |(fa, mut ma), (fb, mb)| {
+                        for (k, (d, n)) in mb {
+                            let e = ma.entry(k).or_insert((d, 0));
+                            e.1 += n;
+                        }
+                        (fa + fb, ma)
+                    },
+                );
+            evaluations += p.len;
+            adapter_fail += fails;
+            for (k, (d, n)) in map {
+                let e = found.entry(k).or_insert((d, 0));
+                e.1 += n;
+            }
+        }
+        failing_styles += adapter_fail;
+        out.push_part(json!({
+            "system": t.name,
+            "styles_evaluated": parts.iter().map(|p| p.len).sum::<u64>(),
+            "styles_with_a_mismatch": adapter_fail,
+            "parts": parts.iter().map(|p| json!({"part": p.name, "styles": p.len})).collect::<Vec<_>>(),
+        }));
+    }
+
+    // findings, simplest case first
+    let mut fl: Vec<(&Key, &(String, u64))> = found.iter().collect();
+    fl.sort_by_key(|(k, _)| (k.0, k.2.weight(), k.1.clone(), k.2));
+    for (k, (detail, n)) in fl.iter().take(200) {
+        out.findings.push(Finding {
+            system: TARGETS[k.0].name.to_string(),
+            clause: k.1.clone(),
+            case: k.2.tokens(),
+            message: format!("{detail} [{n} enumerated style(s) show this mismatch and reduce to this case]"),
+            replay: json!({"kind": "style", "adapter": TARGETS[k.0].name, "style": k.2.to_json(), "clause": k.1}),
+        });
+    }
+    if fl.len() > 200 {
+        out.extra_violation_count += (fl.len() - 200) as u64;
+    }
+
+    // syntect -> anstyle
+    let lat = lattice();
+    let cases: Vec<((u8, u8, u8), (u8, u8, u8), u8, u8)> = lat
+        .iter()
+        .flat_map(|&f| lat.iter().map(move |&b| (f, b)))
+        .flat_map(|(f, b)| [0u8, 255].into_iter().flat_map(move |a| (0..8u8).map(move |s| (f, b, a, s))))
+        .collect();
+    let syn: BTreeMap<(String, String), (String, u64)> = cases
+        .par_iter()
+        .fold(BTreeMap::new, |mut m: BTreeMap<(String, String), (String, u64)>, &(f, b, a, s)| {
+            for mis in syntect_case(f, b, a, s) {
+                let comp = match mis.clause.as_str() {
+                    "fg-colour" => format!("fg=rgb:{},{},{}", f.0, f.1, f.2),
+                    "bg-colour" => format!("bg=rgb:{},{},{}", b.0, b.1, b.2),
+                    _ => format!("font-style-bits={s}"),
+                };
+                let payload =
+                    json!({"kind":"syntect","fg":[f.0,f.1,f.2],"bg":[b.0,b.1,b.2],"alpha":a,"font":s,"detail":mis.detail}).to_string();
+                let e = m.entry((mis.clause.clone(), comp)).or_insert((payload.clone(), 0));
+                if payload < e.0 {
+                    e.0 = payload;
+                }
+                e.1 += 1;
+            }
+            m
+        })
+        .reduce(BTreeMap::new, |mut a, b| {
+            for (k, (d, n)) in b {
+                match a.get_mut(&k) {
+                    Some(e) => {
+                        e.1 += n;
+                        if d < e.0 {
+                            e.0 = d;
+                        }
+                    }
+                    None => {
+                        a.insert(k, (d, n));
+                    }
+                }
+            }
+            a
+        });
+    evaluations += cases.len() as u64;
+    for ((clause, comp), (payload, n)) in syn.iter().take(100) {
+        let p: Value = serde_json::from_str(payload).unwrap();
+        out.findings.push(Finding {
+            system: "anstyle-syntect".into(),
+            clause: clause.clone(),
+            case: vec![comp.clone()],
+            message: format!("{} [{n} enumerated case(s)]", p["detail"].as_str().unwrap_or("")),
+            replay: p.clone(),
+        });
+    }
+    out.push_part(json!({"system": "anstyle-syntect", "cases": cases.len(), "rule": "216 x 216 RGB lattice fg/bg pairs x alpha {0,255} x all 8 font-style subsets; to_anstyle, to_anstyle_color, to_anstyle_effects"}));
+
+    out.set("evaluations", json!(evaluations));
+    out.set("distinct_nontrivial", json!(distinct_nonplain * TARGETS.len() as u64));
+    out.set("distinct_styles_per_adapter", json!(distinct_styles));
+    out.set("styles_with_a_mismatch", json!(failing_styles));
+    out.set(
+        "rule",
+        json!("evaluations = (adapter, style) conversions rendered by the third-party crate and read back, plus syntect cases; distinct_nontrivial = distinct non-plain styles of the domain x 5 adapters; a mismatch is reduced to the single-component sub-style that reproduces it (else reported with the full style)"),
+    );
+    out.set("exhaustive", json!(true));
+    out.set(
+        "expressibility",
+        json!(TARGETS
+            .iter()
+            .map(|t| json!({
+                "target": t.name,
+                "effects_required": fx_str(t.required),
+                "effects_optional": fx_str(t.optional),
+                "effects_not_expressible": fx_str(0x0fff & !(t.required | t.optional)),
+                "underline_colour": t.underline_colour,
+                "bright_foreground": format!("{:?}", t.bright_fg),
+                "bright_background": format!("{:?}", t.bright_bg),
+                "note": t.brightness_note,
+            }))
+            .collect::<Vec<_>>()),
+    );
+    let sample = Sty { fg: Col::Ansi(9), bg: Col::Idx(200), ul: Col::Rgb(1, 2, 3), fx: fx::BOLD | fx::UNDERLINE };
+    for ai in 0..TARGETS.len() {
+        let reads = eval_reads(ai, &sample);
+        out.push_sample(json!({
+            "adapter": TARGETS[ai].name, "style": sample.tokens(), "third_party_output": reads[0].raw,
+            "read_back": {"fg": col_str(opt(reads[0].fg)), "bg": col_str(opt(reads[0].bg)), "ul": col_str(opt(reads[0].ul)), "effects": fx_str(reads[0].fx.unwrap_or(0))},
+        }));
+    }
+    out.assume("the reference SGR machine (vmodel::sgr) interprets the third-party output the way a terminal does; codes it does not know (e.g. 53 overline) denote no anstyle effect");
+    out.assume("brightness: ansi_term foreground may be expressed as hue + bold (the extra bold is then not counted as an added effect) and ansi_term background / termcolor colours need only keep the hue, although Fixed(8..15) / Ansi256(8..15) / ColorSpec::intense could express brightness (DESIGN section 6: required only where the target colour type has bright variants)");
+    out.assume("termcolor STRIKETHROUGH is optional: ColorSpec::set_strikethrough exists in the locked 1.4.1 but not in the adapter's declared minimum 1.1.3");
+    out.assume("indices 0-15 of the 256-colour palette and the 16-colour palette are the same colour (crossterm renders named colours as 38;5;n)");
+    out.assume("the state after the third-party crate's own suffix/reset is not part of the statement and is not checked");
+    out.assume("crossterm's global NO_COLOR switch and yansi's global enable flag are forced on by the check");
+    out
+}
+
+fn replay(v: &Value) -> Result<(), String> {
+    setup_third_party();
+    match v["kind"].as_str().unwrap_or("") {
+        "style" => {
+            let name = v["adapter"].as_str().unwrap_or("");
+            let ai = TARGETS.iter().position(|t| t.name == name).ok_or(format!("unknown adapter {name}"))?;
+            let sty = Sty::from_json(&v["style"])?;
+            let mis = evaluate(ai, &sty);
+            if mis.is_empty() {
+                Ok(())
+            } else {
+                Err(mis.iter().map(|m| format!("{}: {}", m.clause, m.detail)).collect::<Vec<_>>().join(" | "))
+            }
+        }
+        "syntect" => {
+            let t = |k: &str| -> (u8, u8, u8) {
+                let a: Vec<u8> = v[k].as_array().map(|a| a.iter().map(|x| x.as_u64().unwrap_or(0) as u8).collect()).unwrap_or_default();
+                (a.first().copied().unwrap_or(0), a.get(1).copied().unwrap_or(0), a.get(2).copied().unwrap_or(0))
+            };
+            let mis = syntect_case(t("fg"), t("bg"), v["alpha"].as_u64().unwrap_or(0) as u8, v["font"].as_u64().unwrap_or(0) as u8);
+            if mis.is_empty() {
+                Ok(())
+            } else {
+                Err(mis.iter().map(|m| format!("{}: {}", m.clause, m.detail)).collect::<Vec<_>>().join(" | "))
+            }
+        }
+        k => Err(format!("unknown replay kind {k}")),
+    }
+}
+
+fn main() {
+    run_check("C16", "exploration", main_check, replay);
+}
